@@ -8,6 +8,7 @@ CONSTANTS
   Split = FALSE
   PeekStop = TRUE
   WireGaps = FALSE
+  CutStop = TRUE
 SPECIFICATION Spec
 INVARIANTS NoPanic NoStateClobber ExactlyOneEOFLast TimingExact
 CHECK_DEADLOCK TRUE
